@@ -800,16 +800,17 @@ class Mailbox:
                 #
                 if not self.executing_tasks:
                     async with self.mailbox.lock_folder():
-                        changed = await self.check_new_msgs_and_flags()
+                        await self.check_new_msgs_and_flags()
 
-                    # Need to update this command's msg_set_as_set before we
-                    # add it to the list of executing commands (the list is
-                    # empty so we only need to update this one command)
-                    #
-                    if changed:
-                        imap_cmd.msg_set_as_set = self.msg_set_to_msg_seq_set(
-                            imap_cmd.msg_set, imap_cmd.uid_command
-                        )
+                # Need to update this command's msg_set_as_set before we add
+                # it to the list of executing commands: while it was waiting
+                # the mailbox may have changed, not only by new messages but
+                # also by the EXPUNGE (or MOVE) it was waiting for, which
+                # renumbers the messages.
+                #
+                imap_cmd.msg_set_as_set = self.msg_set_to_msg_seq_set(
+                    imap_cmd.msg_set, imap_cmd.uid_command
+                )
 
                 self.executing_tasks.append(imap_cmd)
                 imap_cmd.ready.set()
